@@ -284,13 +284,19 @@ func detect(r *RPCObs, a *AttObs) detection {
 }
 
 // committedByOverflow at the moment described by d.
-func committedByOverflow(rp *RPC, r *RPCObs, d detection) tri {
+func committedByOverflow(rp *RPC, r *RPCObs, a *AttObs, d detection) tri {
 	limit := rp.BufLimit
 	if limit < 0 {
 		limit = DefaultBufLimit
 	}
 	if rp.Shape == "unary" {
-		return overflowState(r.Sizes, limit)
+		st := overflowState(r.Sizes, limit)
+		if a.Wire == 0 && a.Plan.Trig == "headers" {
+			// the server answered the HEADERS while Invoke was still about to send
+			// the request: the send may or may not have been buffered yet
+			st = triOr(no, st)
+		}
+		return st
 	}
 	def, mayb := 0, 0
 	for _, op := range r.Ops {
@@ -386,7 +392,7 @@ func judgeRPC(v *Verdict, sc *Scenario, rp *RPC, rid int, r *RPCObs, pol *Policy
 		if pol != nil && n > maxAtt {
 			v.find(p18, "max-attempts-exceeded", "rpc %d: wire attempt %d is non-transparent attempt number %d but the effective maximum is %d (policy %d, channel cap %d)", rid, i, n, maxAtt, pol.MaxAttempts, sc.Cfg.MaxCallAttempts)
 		}
-		if a.ActionSeq == 0 || a.Plan.Act == "SILENT" {
+		if a.ActionSeq <= 0 || a.Plan.Act == "SILENT" {
 			// the server never answered this attempt: only the deadline ends it
 			parts = append(parts, a.Plan.Act+"@"+a.Plan.Trig+"/deadline")
 			if !last {
@@ -472,15 +478,18 @@ func judgeRPC(v *Verdict, sc *Scenario, rp *RPC, rid int, r *RPCObs, pol *Policy
 				// the application never looked at the stream again before the call ended
 				expect, reason = maybe, "not-detected"
 				allowed[codes.DeadlineExceeded] = true
-				if hasCode(pol, code) || pbBad {
+				if hasCode(pol, code) || pbBad || hasCode(pol, codes.DeadlineExceeded) {
 					tok.maybeFail()
 				}
 				break
 			}
-			com := committedByOverflow(rp, r, d)
+			com := committedByOverflow(rp, r, a, d)
 			if d.at >= r.DeadlineAt {
 				com = triOr(com, yes) // the call's context is done: cannot retry; token accounting open
 				allowed[codes.DeadlineExceeded] = true
+				if hasCode(pol, codes.DeadlineExceeded) {
+					tok.maybeFail()
+				}
 			}
 			if kind == "unprocessed" {
 				switch com {
@@ -573,8 +582,15 @@ func judgeRPC(v *Verdict, sc *Scenario, rp *RPC, rid int, r *RPCObs, pol *Policy
 				allowed[codes.DeadlineExceeded] = true
 				v.Counters["retries_cut_by_deadline"]++
 			default:
+				// the backoff may end exactly at / around the deadline: both outcomes are
+				// legal, and an attempt created at that very instant fails locally with
+				// DEADLINE_EXCEEDED before it is sent, which counts as one more failed
+				// attempt if that code is retryable.
 				expect = maybe
 				allowed[codes.DeadlineExceeded] = true
+				if hasCode(pol, codes.DeadlineExceeded) {
+					tok.maybeFail()
+				}
 			}
 		}
 		// ---- compare with the observation ----
@@ -665,6 +681,11 @@ func judgeRPC(v *Verdict, sc *Scenario, rp *RPC, rid int, r *RPCObs, pol *Policy
 		firstWire = false
 	}
 	// ---- how the call ended ----
+	if lostStatus(r) {
+		// known defect class (see lostStatus): the library itself books the call
+		// as successful, so the bucket may have been credited
+		tok.maybeSuccess()
+	}
 	if r.FinishAt >= r.DeadlineAt {
 		allowed[codes.DeadlineExceeded] = true
 	}
@@ -674,7 +695,14 @@ func judgeRPC(v *Verdict, sc *Scenario, rp *RPC, rid int, r *RPCObs, pol *Policy
 			as = append(as, c.String())
 		}
 		sort.Strings(as)
-		v.find(p18, "final-status-mismatch", "rpc %d (%s) ended with %v (%s) at %v; the reference allows %v after %d wire attempt(s) [%s]", rid, rp.Shape, r.FinalCode, r.FinalErr, r.FinishAt, as, len(r.Atts), strings.Join(parts, " "))
+		key := "final-status-mismatch"
+		if lostStatus(r) {
+			// RecvMsg returned io.EOF (= success) although the last attempt failed:
+			// the io.EOF of a replayed SendMsg/CloseSend that found the new stream
+			// already ended by the server leaked out as the call's result.
+			key = "eof-leaks-from-interrupted-replay"
+		}
+		v.find(p18, key, "rpc %d (%s) ended with %v (%s) at %v; the reference allows %v after %d wire attempt(s) [%s]", rid, rp.Shape, r.FinalCode, r.FinalErr, r.FinishAt, as, len(r.Atts), strings.Join(parts, " "))
 	}
 	// response messages must come from the last attempt only
 	for j, m := range r.Recv {
@@ -684,7 +712,11 @@ func judgeRPC(v *Verdict, sc *Scenario, rp *RPC, rid int, r *RPCObs, pol *Policy
 		}
 	}
 	if strictMsgs && r.FinishAt < r.DeadlineAt && len(r.Recv) != len(expectMsgs) && r.FinalCode != codes.DeadlineExceeded {
-		v.find(p18, "response-messages-mismatch", "rpc %d: the application received %d message(s), the reference expects %d", rid, len(r.Recv), len(expectMsgs))
+		key := "response-messages-mismatch"
+		if lostStatus(r) && len(r.Recv) < len(expectMsgs) {
+			key = "eof-leaks-from-interrupted-replay" // same defect: the response was never read
+		}
+		v.find(p18, key, "rpc %d: the application received %d message(s), the reference expects %d (call ended %v %q)", rid, len(r.Recv), len(expectMsgs), r.FinalCode, r.FinalErr)
 	}
 	// no op may outlive the deadline
 	for _, op := range r.Ops {
@@ -709,6 +741,35 @@ func judgeRPC(v *Verdict, sc *Scenario, rp *RPC, rid int, r *RPCObs, pol *Policy
 	if timed > 0 {
 		v.TimingSigs = append(v.TimingSigs, strings.Join(tparts, ","))
 	}
+}
+
+// lostStatus recognises one specific failure class: the call ended with
+// io.EOF (streaming RecvMsg: "clean end"; unary Invoke: a bare or wrapped io.EOF
+// error) right after the server interrupted the replay on a retry attempt, so
+// the attempt's real status and/or response messages never reached the
+// application.
+func lostStatus(r *RPCObs) bool {
+	la := r.Atts[len(r.Atts)-1]
+	eof := r.FinalCode == codes.OK && r.FinalErr == "" || r.FinalErr == "EOF" || strings.HasSuffix(r.FinalErr, ": EOF")
+	return eof && la.Wire > 0 && la.ServerEnd && replayInterrupted(r, la)
+}
+
+// replayInterrupted: the server ended attempt a before the client had
+// re-sent everything the application had already sent.
+func replayInterrupted(r *RPCObs, a *AttObs) bool {
+	sent, closed := 0, false
+	for _, op := range r.Ops {
+		if op.K == "S" && op.Err == "" && op.EndSeq != 0 {
+			sent++
+		}
+		if op.K == "C" && op.EndSeq != 0 {
+			closed = true
+		}
+		if op.K == "I" {
+			sent, closed = 1, true
+		}
+	}
+	return a.Msgs < sent || closed && !a.EndStream
 }
 
 func shortCode(p Att) string {
